@@ -227,6 +227,147 @@ func vrfC11ServerScript(h *vrfSrv, rng *rand.Rand, d *vrfC11Desc) {
 	probes := 2 + rng.IntN(5)
 	beliefAbove := false // white box: the server's inflow.avail was seen above the peer's view of the connection window
 	endAfter := false
+	// connProbe exhausts the CONNECTION window with several streams, each inside its own stream
+	// window, then sends one more frame on a fresh stream whose stream window has room.
+	connProbe := func() {
+		var used []*vrfSrvStream
+		filled := false
+		for i := 0; i < 26 && !h.dead; i++ {
+			conn, _, _ := h.view(0)
+			if conn <= 0 {
+				filled = true
+				break
+			}
+			st := h.open(nextID, -1, false, true)
+			nextID += 2
+			used = append(used, st)
+			if !h.quiescent() {
+				return
+			}
+			conn, sw, mf := h.view(st.id)
+			target := max(min(conn, sw), 0)
+			if int64(26-i)*sw < conn {
+				break // the stream windows are too small to exhaust the connection window
+			}
+			before := errsSeen()
+			frames := vrfSplitFill(rng, target, mf)
+			sendFrames(st, frames)
+			for _, f := range frames {
+				st.accepted += int64(f[0])
+			}
+			d.note("conn-probe fill s=%d window(conn=%d stream=%d) -> %d", st.id, conn, sw, target)
+			if !h.quiescent() {
+				if h.dead {
+					viol("in-window-data-killed-connection", "the peer sent %d flow-controlled bytes on stream %d within its window (connection %d, stream %d) and the connection ended", target, st.id, conn, sw)
+				}
+				return
+			}
+			if se, ce := flowErr(st.id); se || ce || errorSince(before, st.id) {
+				viol("in-window-data-rejected", "the peer sent %d flow-controlled bytes on stream %d within its window (connection %d, stream %d) and the server answered with an error frame (FLOW_CONTROL_ERROR on stream: %v, on connection: %v)", target, st.id, conn, sw, se, ce)
+				return
+			}
+			if target > 0 {
+				d.exactFills++
+			}
+		}
+		if conn, _, _ := h.view(0); !filled && conn > 0 {
+			d.note("conn-probe: connection window not exhausted (%d left)", conn)
+		} else if !h.dead {
+			st := h.open(nextID, -1, false, true)
+			nextID += 2
+			used = append(used, st)
+			if !h.quiescent() {
+				return
+			}
+			conn, sw, mf := h.view(st.id)
+			smp, ok := h.sample()
+			if !ok {
+				return
+			}
+			if int64(smp.avail) > conn {
+				beliefAbove = true
+			}
+			n, pad := vrfOverflowFrame(rng, min(mf, max(sw, 1)), true)
+			fc := int64(n)
+			if pad >= 0 {
+				fc += 1 + int64(pad)
+			}
+			if fc > sw { // stay inside the stream window: only the connection window is exceeded
+				n, pad, fc = 1, -1, 1
+			}
+			if conn != 0 || sw < 1 {
+				d.note("conn-probe: no clean boundary (conn=%d stream=%d)", conn, sw)
+			} else {
+				sendFrames(st, [][2]int{{n, pad}})
+				d.note("conn-probe overflow s=%d window(conn=%d stream=%d) excess frame data=%d pad=%d over %d streams (server belief avail=%d unsent=%d)", st.id, conn, sw, n, pad, len(used), smp.avail, smp.unsent)
+				if !h.quiescent() && !h.dead {
+					return
+				}
+				se, ce := flowErr(st.id)
+				if !se && !ce {
+					key := "overflow-not-rejected:connection-window"
+					if beliefAbove {
+						key = "overflow-not-rejected:server-belief-above-peer-view"
+					}
+					viol(key, "the peer's connection window was exhausted over %d streams (connection %d, stream %d) and it sent %d more flow-controlled bytes on stream %d; no RST_STREAM(FLOW_CONTROL_ERROR) on the stream and no GOAWAY(FLOW_CONTROL_ERROR) followed (server's belief of the connection window before: avail=%d unsent=%d)", len(used)-1, conn, sw, fc, st.id, smp.avail, smp.unsent)
+				} else {
+					d.overflows++
+					if smp.unsent > 0 {
+						d.batchedAtOverflow++
+					}
+					h.R.Event("server_overflow_of_connection_window", 1)
+					h.R.Event("server_overflow_of_connection_window_over_several_streams", 1)
+					if ce {
+						h.R.Event("server_overflow_answered_with_connection_error", 1)
+					} else {
+						h.R.Event("server_overflow_answered_with_stream_error", 1)
+					}
+				}
+				endAfter = true
+			}
+		}
+		if h.dead {
+			return
+		}
+		// delivery: every handler gets exactly its in-window bytes
+		for _, st := range used {
+			for i := 0; i < 4; i++ {
+				st.app.send(vrfCmd{'r', 1 << 21})
+				if !h.quiescent() {
+					return
+				}
+				if read, _, _, _, _ := st.app.snapshot(); read >= st.accepted {
+					break
+				}
+			}
+			read, _, _, _, _ := st.app.snapshot()
+			if read > st.accepted {
+				key := "excess-bytes-delivered"
+				if beliefAbove {
+					key += ":server-belief-above-peer-view"
+				}
+				viol(key, "stream %d: %d body bytes were sent within the window, the handler received %d", st.id, st.accepted, read)
+			} else if read < st.accepted {
+				if se, _ := flowErr(st.id); !se {
+					viol("in-window-data-not-delivered", "stream %d: the peer sent %d body bytes within its window, the handler could read only %d", st.id, st.accepted, read)
+				}
+			}
+			h.R.Event("server_body_delivery_checks", 1)
+			st.app.send(vrfCmd{'w', 10})
+			st.app.send(vrfCmd{'x', 0})
+			st.finished = true
+		}
+		h.quiescent()
+	}
+	connFirst := rng.IntN(4) == 0
+	connLast := !connFirst && rng.IntN(2) == 0
+	if connFirst {
+		connProbe()
+		if endAfter || h.dead {
+			d.note("done")
+			return
+		}
+	}
 	for p := 0; p < probes && !h.dead; p++ {
 		st := h.open(nextID, -1, false, true)
 		nextID += 2
@@ -413,7 +554,7 @@ func vrfC11ServerScript(h *vrfSrv, rng *rand.Rand, d *vrfC11Desc) {
 					if h.dead {
 						return
 					}
-					if which == "connection" {
+					if fc > conn-room { // room: what the same-write prefill used up (0 otherwise)
 						endAfter = true // the peer has broken the connection's flow control: nothing after this is specified
 					}
 				}
@@ -444,6 +585,9 @@ func vrfC11ServerScript(h *vrfSrv, rng *rand.Rand, d *vrfC11Desc) {
 		if !h.quiescent() {
 			return
 		}
+	}
+	if connLast && !h.dead && !endAfter {
+		connProbe()
 	}
 	d.note("done")
 }
@@ -706,7 +850,7 @@ func TestVerif_C11(t *testing.T) {
 	r.SetRule("one case = one connection with 1-6 boundary probes. Server role: MaxUploadBufferPerConnection in {65535,65536,65635,70000,100000,1MiB} x MaxUploadBufferPerStream in {1,2,100,4095,4096,4097,5000,65535,70001,1MiB}; client role: MaxReceiveBufferPerConnection in {64KiB,64KiB+1,100000,1MiB} x per-stream {1,2,100,4095,4096,4097,65535,100000,1MiB,4MiB-1}. A probe = 1-4 rounds of [fill the window the peer has to exactly 0 in PRNG-split frames (padding, 1-byte frames, max-size frames), optionally racing with an application read; application reads k in {1,100,4095,4096,4097,20000,1MiB} bytes] then, application idle and connection quiescent, a frame of 1..max-frame more flow-controlled bytes (alone or in one write with a last in-window prefill). non-trivial = session with an accepted exact fill and a rejected overflow; distinct = hash of the script")
 	r.Assume("the peer's window = initial (65535 / announced SETTINGS_INITIAL_WINDOW_SIZE) + WINDOW_UPDATEs it has parsed − DATA payload lengths incl. padding; 'must be rejected' is only demanded from a quiescent state with the application idle, where the peer's view and the implementation's inflow.avail are the same number; racing fills only demand acceptance")
 	r.Assume("accepted reports of FLOW_CONTROL_ERROR: RST_STREAM(3) on the stream, GOAWAY(3), or (Transport) the connection closed with the read loop's error being ConnectionError(FLOW_CONTROL_ERROR) — the Transport's GOAWAY is not flushed before it closes the connection")
-	n := r.N(300, 3000)
+	n := r.N(220, 1500)
 	vsrvGoroutineTracking(false)
 	r.CasesParallel("server", n, 0, func(c *verifrt.Case) { vrfC11Server(r, c) })
 	r.CasesParallel("client", n, 0, func(c *verifrt.Case) { vrfC11Client(r, c) })
